@@ -466,6 +466,28 @@ def r19_eval(ctx, repo):
                 if t != ("ok", base + off):
                     fail("seek modes", f"{cfg}: seek(2); seek({off}, "
                          f"{whence}); tell() -> {t!r}, expected {base + off}")
+    # servers that label the resource with a weak validator or with none
+    from ..lib_C19 import WEAK_ETAG
+    for etag in (WEAK_ETAG, None):
+        for (Ln, c, keep) in ((7, 3, 2), (8, 4, 1)):
+            res = bytes(range(1, Ln + 1))
+            cfg = (f"resource of {Ln} bytes, chunk size {c}, keep_chunks "
+                   f"{keep}, server ETag {etag}")
+            m = Model(repo, res, c, keep, etag=etag)
+            for a in range(Ln + 1):
+                for b in range(a, Ln + 1):
+                    r = m.call("read_range_cached", a, b)
+                    n_eval += 1
+                    if r != ("ok", res[a:b]):
+                        why = ""
+                        if m.session.if_range_failed:
+                            why = (" (the request carried If-Range: "
+                                   f"{m.session.if_range_failed[0]}, which "
+                                   "fails the strong comparison: the server "
+                                   "ignores Range and sends the whole "
+                                   "resource)")
+                        fail("range bytes", f"{cfg}: read_range_cached({a}, "
+                             f"{b}) -> {r!r}, expected {res[a:b]!r}{why}")
     # two open resources do not see each other's chunks
     resA, resB = bytes(range(1, 9)), bytes(range(101, 109))
     ma = Model(repo, resA, 3, 2)
@@ -582,6 +604,177 @@ def r19_eval(ctx, repo):
            else bad, node=s3dl[0], label="s3 range bytes")
 
 
+MUTATORS = {"append", "extend", "insert", "remove", "pop", "clear", "sort",
+            "reverse", "update", "add", "discard", "setdefault", "popitem",
+            "appendleft", "extendleft", "fill", "resize", "put"}
+
+
+def _lazy_memo_sites(func):
+    """[(attr, publishing Assign, [later statements that still change the
+    published object])] for the lazy-memo idiom ``if self.X is None: ...
+    self.X = V`` (or the early return ``if self.X is not None: return``)."""
+    out = []
+
+    def is_none_test(t):
+        """(attr, polarity) for ``self.X is None`` / ``self.X is not None``"""
+        if isinstance(t, ast.Compare) and len(t.ops) == 1 and isinstance(
+                t.comparators[0], ast.Constant) \
+                and t.comparators[0].value is None \
+                and isinstance(t.left, ast.Attribute) \
+                and isinstance(t.left.value, ast.Name) \
+                and t.left.value.id == "self":
+            if isinstance(t.ops[0], ast.Is):
+                return t.left.attr, True
+            if isinstance(t.ops[0], ast.IsNot):
+                return t.left.attr, False
+        return None
+
+    def region(stmts):
+        return [n for st in stmts for n in ast.walk(st)]
+
+    def later(stmt, top):
+        """statements that may execute after `stmt` inside `top` (a list of
+        statements): later siblings on every nesting level and, inside a
+        loop, the whole loop"""
+        res = []
+
+        def rec(stmts):
+            for i, st in enumerate(stmts):
+                if st is stmt:
+                    res.extend(stmts[i + 1:])
+                    return True
+                for fld in ("body", "orelse", "finalbody", "handlers"):
+                    sub = getattr(st, fld, None)
+                    if isinstance(sub, list) and sub and isinstance(
+                            sub[0], ast.AST):
+                        sl = []
+                        for x in sub:
+                            sl.append(x)
+                        if isinstance(sub[0], ast.ExceptHandler):
+                            hit = any(rec(h.body) for h in sub)
+                        else:
+                            hit = rec(sl)
+                        if hit:
+                            if isinstance(st, (ast.For, ast.While)) \
+                                    and fld == "body":
+                                res.append(st)
+                            else:
+                                res.extend(stmts[i + 1:])
+                            if isinstance(st, (ast.For, ast.While)):
+                                res.extend(stmts[i + 1:])
+                            return True
+            return False
+        rec(top)
+        return res
+
+    def scan(attr, body):
+        pubs = [n for n in region(body) if isinstance(n, ast.Assign) and any(
+            isinstance(t, ast.Attribute) and isinstance(t.value, ast.Name)
+            and t.value.id == "self" and t.attr == attr for t in n.targets)]
+        pubs += [n for n in region(body) if isinstance(n, ast.AnnAssign)
+                 and n.value is not None
+                 and isinstance(n.target, ast.Attribute)
+                 and isinstance(n.target.value, ast.Name)
+                 and n.target.value.id == "self" and n.target.attr == attr]
+        if not pubs:
+            return
+        pub = min(pubs, key=lambda n: (n.lineno, n.col_offset))
+        alias = {f"self.{attr}"}
+        tg = pub.targets if isinstance(pub, ast.Assign) else [pub.target]
+        for t in tg:
+            if isinstance(t, ast.Name):
+                alias.add(t.id)
+        if isinstance(pub.value, ast.Name):
+            alias.add(pub.value.id)
+        after = later(pub, body)
+        changes = []
+        for st in after:
+            for n in ast.walk(st):
+                if isinstance(n, ast.Call) and isinstance(
+                        n.func, ast.Attribute) and n.func.attr in MUTATORS \
+                        and txt(n.func.value) in alias:
+                    changes.append(n)
+                elif isinstance(n, (ast.Assign, ast.AugAssign, ast.Delete)):
+                    tgs = n.targets if not isinstance(n, ast.AugAssign) \
+                        else [n.target]
+                    for t in tgs:
+                        if isinstance(t, ast.Subscript) and txt(
+                                t.value) in alias:
+                            changes.append(n)
+                        elif txt(t) == f"self.{attr}" and n is not pub \
+                                and not (isinstance(n, ast.Assign)
+                                         and isinstance(n.value, ast.Constant)
+                                         and n.value.value is None):
+                            changes.append(n)
+        out.append((attr, pub, changes))
+
+    stmts = list(func.body)
+    for i, st in enumerate(stmts):
+        for n in ast.walk(st):
+            if isinstance(n, ast.If):
+                t = is_none_test(n.test)
+                if t and t[1]:
+                    scan(t[0], n.body)
+                elif t and not t[1] and n is st and any(
+                        isinstance(x, ast.Return) for x in n.body):
+                    scan(t[0], stmts[i + 1:] + n.orelse)
+                elif t and not t[1] and n.orelse:
+                    scan(t[0], n.orelse)
+    return out
+
+
+READER_DIR = "dclab/rtdc_dataset/fmt_hdf5/"
+
+
+def r198(ctx, repo):
+    """The HDF5 reader that RTDC_HTTP / RTDC_S3 inherit memoises what it
+    lists (feature names, log and table names, lengths, shapes).  Filling
+    the memo performs I/O – range requests for a remote file – which can
+    fail at any point; a memo that is bound before it is complete keeps the
+    partial listing for good, and the remote dataset then exposes fewer /
+    other features, logs or tables than the file has.  Rule: after the
+    statement that publishes ``self.X`` inside ``if self.X is None:``,
+    nothing changes the published object any more."""
+    ctrl = ast.parse(
+        "def keys(self):\n"
+        "    if self._k is None:\n"
+        "        self._k = names = []\n"
+        "        for key in self.h5['logs']:\n"
+        "            names.append(key)\n"
+        "    return self._k\n"
+        "def good(self):\n"
+        "    if self._k is None:\n"
+        "        names = []\n"
+        "        for key in self.h5['logs']:\n"
+        "            names.append(key)\n"
+        "        self._k = names\n"
+        "    return self._k\n")
+    got = [len(_lazy_memo_sites(f)[0][2]) for f in ctrl.body]
+    if got != [1, 0]:
+        raise AnalysisError(f"R19.8 positive control failed: {got}")
+    n = 0
+    for rel in repo.files(READER_DIR):
+        tree = repo.tree(rel)
+        for cls in [c for c in ast.walk(tree) if isinstance(c, ast.ClassDef)]:
+            for f in [x for x in cls.body if isinstance(x, ast.FunctionDef)]:
+                for attr, pub, changes in _lazy_memo_sites(f):
+                    n += 1
+                    ok = not changes
+                    ctx.ob("R19.8", ok,
+                           f"{cls.name}.{f.name}: the memo self.{attr} is "
+                           "published complete" if ok else
+                           f"{cls.name}.{f.name}: `{short(pub, 50)}` "
+                           f"publishes the memo self.{attr}, then "
+                           f"`{short(changes[0], 50)}` still changes it: a "
+                           "failing range request in between leaves the "
+                           "partial listing memoised and the remote dataset "
+                           "exposes other features / logs / tables than the "
+                           "file has", node=pub,
+                           key=f"{rel}::{cls.name}.{f.name}::memo self."
+                               f"{attr} published complete")
+    ctx.stat("R19.8 lazy memos", n)
+
+
 def run(ctx):
     repo = ctx.repo
     ctx.rule("R19.7", "resource identity bound in __init__ only; explicit "
@@ -601,9 +794,25 @@ def run(ctx):
              minimum=5)
     r19_eval(ctx, repo)
     r195(ctx, repo)
+    ctx.rule("R19.8", "lazy listings of the HDF5 reader are published "
+             "complete", minimum=6)
+    r198(ctx, repo)
 
+
+H5EVENTS = "dclab/rtdc_dataset/fmt_hdf5/events.py"
+H5LOGS = "dclab/rtdc_dataset/fmt_hdf5/logs.py"
 
 MUTANTS = [
+    ("feature list published before the trace check (F19e returns)",
+     H5EVENTS,
+     [("            features = sorted(self.h5file[\"events\"].keys())\n",
+       "            self._features_list = features = sorted(\n"
+       "                self.h5file[\"events\"].keys())\n"),
+      ("            self._features_list = features\n", "")], "R19.8"),
+    ("log names memo bound first, filled in place (seeded C19_11)", H5LOGS,
+     [("            names = []\n", "            self._cache_keys = names = "
+       "[]\n"),
+      ("            self._cache_keys = names\n", "")], "R19.8"),
     ("internal basins refused for remote formats (seeded C19_9)", CORE,
      ("            elif bdict[\"type\"] == \"file\":\n"
       "                if not self._local_basins_allowed:",
@@ -728,6 +937,16 @@ MUTANTS = [
 ]
 
 TWINS = [
+    ("log names: comprehension, published at once", H5LOGS,
+     ("            names = []\n"
+      "            if \"logs\" in self.h5file:\n"
+      "                for key in self.h5file[\"logs\"]:\n"
+      "                    if self.h5file[\"logs\"][key].size:\n"
+      "                        names.append(key)\n"
+      "            self._cache_keys = names\n",
+      "            logs = self.h5file[\"logs\"] if \"logs\" in self.h5file "
+      "else {}\n"
+      "            self._cache_keys = [k for k in logs if logs[k].size]\n")),
     ("immutable defaults declared at class level", HU,
      [("        self._len = None\n        self._etag = None\n"
        "        self._pos = 0\n", ""),
